@@ -71,7 +71,7 @@ CHECKS.update({
  "C13": dict(
   text=("Deductive proof, via a ghost call log appended by the call rule for Handler4/Handler6 values, that HandleMsg4/HandleMsg6 invoke l.handlers[0..k) in slice order, each once, each with the original request and the response returned by its predecessor, "
         "stopping after the first handler that signals stop (k < len only then); what is sent is the last response, and nothing is sent when it is nil. `Built-in handlers return nil only together with stop` is a clause of the type contracts proved for every built-in handler. "
-        "plugins.LoadPlugins (second ghost log, of setup calls): every setup call is made through the plugin registered under the listed name, every handler appended is the non-nil result of the setup call just made, on success the number of handlers per protocol equals the number of setup calls, and any error (unknown name, failing setup, nil handler) returns no handlers. server.Start: every listener appended to the server (and served) was given exactly the handler slice of its protocol that LoadPlugins returned (keyed assertions), and LoadPlugins' preconditions hold there."),
+        "plugins.LoadPlugins (second ghost log, of setup calls): every setup call is made through the plugin registered under the listed name, every handler appended is the non-nil result of the setup call just made, on success the number of handlers per protocol equals the number of setup calls and every listed plugin name is a registered one (an unknown name cannot be skipped), and any error (unknown name, failing setup, nil handler) returns no handlers. server.Start: every listener appended to the server (and served) was given exactly the handler slice of its protocol that LoadPlugins returned (keyed assertions), and LoadPlugins' preconditions hold there."),
   note=SRV_NOTE + " Order preservation by append is covered per iteration (the appended element is the latest setup result), not as a whole-slice equality. The LoadPlugins contract assumes (preserves clause) that setup functions cannot reach the configuration object or the plugin registry.",
   technique="contract-based deductive verification: ghost call log, quantified loop invariant, function-type contracts", ref="DESIGN.md section 7 (C13)"),
  "C14": dict(
@@ -81,7 +81,7 @@ CHECKS.update({
  "C15": dict(
   text=("Deductive proof of the RFC 2131 section 4.1 addressing table as five postconditions of HandleMsg4 over the ghost destination (giaddr set -> giaddr:67; else NAK -> broadcast:68; else ciaddr set -> ciaddr:68; else broadcast flag -> broadcast:68; "
         "else link-level unicast of this response on the pinned interface), and that the control message pins the interface (bound interface first, else the receiving one) exactly when the destination is the broadcast address, link-local, or the link-level path."),
-  note=SRV_NOTE + " The frame actually built by sendEthernet (gopacket) and the bytes leaving the socket are not decided.", technique="contract-based deductive verification: decision-table postconditions over ghost effect state", ref="DESIGN.md section 7 (C11, C15)"),
+  note=SRV_NOTE + " For the link-level path, keyed assertions in sendEthernet show that the layers handed to the serialiser are addressed to the client's hardware address and to yiaddr, UDP 67 -> 68, and that the frame is sent on the given interface; what gopacket serialises from those layers and the bytes leaving the socket are not decided.", technique="contract-based deductive verification: decision-table postconditions over ghost effect state", ref="DESIGN.md section 7 (C11, C15)"),
  "C17": dict(
   text=("Deductive proof of one postcondition table per option plugin on the real handlers (dns, mtu, netmask, router, searchdomains, staticroute, lease_time, ipv6only, autoconfigure, nbp, sleep; DHCPv4 and DHCPv6 variants): under the stated condition the option map/list "
         "of the response is updated at exactly the plugin's code with the option built by the library constructor from the configured value, otherwise it is unchanged; all other codes are untouched; stop flags as stated (ipv6only stops only for clients that list option 108 explicitly; "
@@ -156,7 +156,7 @@ CHECKS.update({
  "C18": dict(
   text=("Deductive proof on the real config package: no panic in parsePlugins, splitHostPort, getListenAddress, getPlugins, parseListen, parseConfig, expandLLMulticast, defaultListen for any configuration tree (the two `BUG` panics are unreachable after protoVersionCheck; string slicing at the zone separator is in bounds); "
         "getListenAddress returns an address or an error, with port 67/547 filled in when no port is written, the protocol's wildcard address when no address is written, the zone carried over, and an address of the protocol's family (wrong family, unparseable address or port: error); "
-        "parsePlugins yields exactly one entry per list item, in order, and every item names exactly one plugin."),
+        "parsePlugins yields exactly one entry per list item, in order, every item names exactly one plugin and the entry carries that name."),
   note=COMMON_NOTE + " viper, cast, yaml.v3, net.SplitHostPort, strconv and net.Interfaces are outside /repo: uninterpreted and assumed panic-free - `no configuration TEXT makes loading panic` is therefore decided only for the code in /repo; Load itself (file lookup) and `listen`/`interface` conflict handling are covered for safety only.",
   technique="contract-based deductive verification: safety obligations, postconditions, loop invariant, keyed assertion", ref="DESIGN.md section 7 (C18)"),
 })
